@@ -65,8 +65,8 @@ def _twodep(ctx, p, rng):
     D, P = p['D'], p['P']
     desc, f = progs.random_program(rng, p['len'], 'vector')
     x = gen.series_data(rng, D, P, (3,), 'R', 'random', False, 0.4)
-    if max(f.peak(x[0, pp]) for pp in range(P)) > PEAK:
-        ctx.skip('out_of_domain:ill-conditioned (intermediate values > 1e6 cancel in the output)'); return
+    if f.peak(x) > PEAK:
+        ctx.skip('out_of_domain:ill-conditioned (intermediate coefficients > 1e6 cancel in the output)'); return
     how = int(rng.integers(3))
 
     def f2(y1, xx):
@@ -230,8 +230,8 @@ def run_case(ctx, case):
         desc, f = progs.random_program(rng, p['len'], 'vector')
         x = gen.series_data(rng, D, P, (3,), 'R', 'random', False, 0.4)
         base = gen.base_sampler('R')(rng, (3,))
-        if max(f.peak(x[0, pp]) for pp in range(P)) > PEAK:
-            ctx.skip('out_of_domain:ill-conditioned (intermediate values > 1e6 cancel in the output)'); return
+        if f.peak(x) > PEAK:
+            ctx.skip('out_of_domain:ill-conditioned (intermediate coefficients > 1e6 cancel in the output)'); return
         ops = sorted({st[0] + ':' + str(st[2] if st[0] in ('idx', 'red', 'buf', 'fact') else (st[3] if st[0] in ('dot', 'bin') else (st[2] if st[0] == 'lin' else ''))) for st in desc['steps']})
         duality(ctx, 'comp', 'comp', f, [x], rng, p['rec'], [base], ('comp', tuple(ops), D, P),
                 sample={'program': [list(map(str, s)) for s in desc['steps']], 'D': D, 'P': P} if rng.random() < 0.01 else None)
